@@ -51,6 +51,10 @@ type client struct {
 	clientInflight int // deliveries of client-level requests in flight
 	inflightAll    int
 	epoch          int // bumped whenever the client's record is replaced or dropped
+	// deadIDs: client IDs whose confirmed record the server has removed
+	// (replaced by a newer confirmation, or found expired). IDs are random
+	// and never handed out again.
+	deadIDs map[uint64]bool
 }
 
 type session struct {
@@ -185,6 +189,15 @@ func (c *client) dropState() {
 		}
 	}
 	c.epoch++
+	// A new record starts from a clean slate (see invalidateUnanswered).
+	c.uncertain = false
+}
+
+func (c *client) markDead(id uint64) {
+	if c.deadIDs == nil {
+		c.deadIDs = map[uint64]bool{}
+	}
+	c.deadIDs[id] = true
 }
 
 func (c *client) allOwners() []*owner {
